@@ -20,6 +20,10 @@ from .interp import Interp, Program
 from .values import SBool, SInt, Unsupported, b_and, b_not, conc
 
 
+KNOWN_DECORATORS = {'property', 'staticmethod', 'classmethod', 'contextmanager', 'overload', 'abc.abstractmethod',
+                    'abstractmethod'}
+
+
 class NS:
     """Plain namespace."""
 
@@ -184,6 +188,22 @@ def verify_unit(unit, contracts, repo=None, timeout_ms=10000, max_paths=4000):
                 names = params_of(f)
                 args = [getattr(a, p) for p in names if hasattr(a, p)]
                 try:
+                    if any(('lru_cache' in d or d.split('(')[0].endswith('.cache') or d == 'cache') for d in f.decos) and \
+                            vc.choose(2, label='memoised') == 1:
+                        # a memoised function may answer from its cache: the value computed for the same arguments
+                        # in an EARLIER world state, whatever the world looks like now
+                        if not hasattr(unit, 'stale_result'):
+                            raise Unsupported(f'{unit.fn} is memoised and the contract gives no sort for a cached result')
+                        vc.path_log.append('answer taken from the memoisation cache (computed in an earlier state)')
+                        ret = unit.stale_result(vc, a)
+                        vc.stats['normal_exits'] += 1
+                        for name, fml in unit.post(vc, a, o, ret):
+                            vc.check(name, fml)
+                        return
+                    unknown_decos = [d for d in f.decos if d.split('(')[0] not in KNOWN_DECORATORS and
+                                     not ('lru_cache' in d or d.split('(')[0].endswith('.cache') or d == 'cache')]
+                    if unknown_decos:
+                        raise Unsupported(f'{unit.fn} has unmodelled decorator(s) {unknown_decos}')
                     ret = I.run_func(f, args, {})
                     if f.is_gen and not f.is_ctxmgr:
                         ret = unit.drive_generator(vc, I, a, o, ret)
